@@ -248,7 +248,16 @@ func genC31(g *gen) {
 	}
 	mgrPause := false
 	if fd := findFunc(mf, "Manager", "DisconnectAll"); fd != nil {
-		mgrPause = peerCall(fd.Body, func(s string) bool { return strings.HasSuffix(s, "reconnector.Pause") }) != token.NoPos
+		pp := peerCall(fd.Body, func(s string) bool { return strings.HasSuffix(s, "reconnector.Pause") })
+		early := peerPos(fd.Body, func(n ast.Node) bool { _, ok := n.(*ast.ReturnStmt); return ok })
+		// a top-level statement of the function, and no return statement before it
+		top := false
+		for _, st := range fd.Body.List {
+			if es, ok := st.(*ast.ExprStmt); ok && es.Pos() <= pp && pp < es.End() {
+				top = true
+			}
+		}
+		mgrPause = pp != token.NoPos && top && !(early != token.NoPos && early < pp)
 	}
 	mgrCallback := false
 	if fd := findFunc(mf, "", "NewManager"); fd != nil {
@@ -499,6 +508,46 @@ func genC32(g *gen) {
 		})
 	}
 
+	// DisconnectAll: snapshot and map replacement in one m.mu section, before any Close
+	daAtomic := false
+	if fd := findFunc(mf, "Manager", "DisconnectAll"); fd != nil {
+		lock := peerCall(fd.Body, isMuLock)
+		unlock := peerCall(fd.Body, isMuUnlock)
+		reset := peerPos(fd.Body, func(n ast.Node) bool {
+			a, ok := n.(*ast.AssignStmt)
+			return ok && len(a.Lhs) == 1 && strings.HasSuffix(peerNorm(src(a.Lhs[0])), ".peers") && a.Tok == token.ASSIGN
+		})
+		cl := peerCall(fd.Body, func(s string) bool { return strings.HasSuffix(s, "conn.Close") })
+		daAtomic = peerBefore(lock, reset) && peerBefore(reset, unlock) && peerBefore(unlock, cl)
+	}
+	// Disconnect(id): entry deleted under m.mu
+	dAtomic := false
+	if fd := findFunc(mf, "Manager", "Disconnect"); fd != nil {
+		lock := peerCall(fd.Body, isMuLock)
+		unlock := peerCall(fd.Body, isMuUnlock)
+		del := peerCall(fd.Body, func(s string) bool { return s == "delete" })
+		dAtomic = peerBefore(lock, del) && peerBefore(del, unlock)
+	}
+	// the loops tear down their OWN connection (conn.Close), never "whatever is registered for the identity"
+	loopsOwn := true
+	for _, fd := range []*ast.FuncDecl{rl, kl} {
+		if fd == nil {
+			loopsOwn = false
+			continue
+		}
+		if peerCountCalls(fd.Body, func(s string) bool { return strings.HasSuffix(s, ".Disconnect") || strings.HasSuffix(s, ".DisconnectAll") }) > 0 {
+			loopsOwn = false
+		}
+		if peerCountCalls(fd.Body, func(s string) bool { return s == "conn.Close" }) < peerCountCalls(fd.Body, func(s string) bool { return strings.HasSuffix(s, ".handleDisconnect") }) {
+			loopsOwn = false
+		}
+	}
+	// the agent's cleanup runs synchronously inside the callback (so that lifecycleMu covers it)
+	agentSync := false
+	if fd := findFunc(af, "Agent", "handlePeerDisconnect"); fd != nil {
+		agentSync = peerPos(fd.Body, func(n ast.Node) bool { _, ok := n.(*ast.GoStmt); return ok }) == token.NoPos
+	}
+
 	if reg == nil || hd == nil {
 		g.note("Manager.registerConnection / handleDisconnect not found; facts set to false")
 	}
@@ -513,4 +562,8 @@ func genC32(g *gen) {
 	g.line("Definition gen_agent_cleanup_by_peer_id : bool := %s.", coqBool(agentByID))
 	g.line("Definition gen_agent_cleanup_checks_connection : bool := %s.", coqBool(agentChecksConn))
 	g.line("Definition gen_agent_callback_wired : bool := %s.", coqBool(wired))
+	g.line("Definition gen_disconnectall_snapshot_and_reset_atomic : bool := %s.", coqBool(daAtomic))
+	g.line("Definition gen_disconnect_delete_under_lock : bool := %s.", coqBool(dAtomic))
+	g.line("Definition gen_loops_close_their_own_connection : bool := %s.", coqBool(loopsOwn))
+	g.line("Definition gen_agent_cleanup_synchronous : bool := %s.", coqBool(agentSync))
 }
